@@ -32,6 +32,19 @@ def _build(kind, case, cfg):
         o.fit(X, y); return o
     if kind in ('BinaryCarver', 'ContinuousCarver'):
         return zoo.fit_carver(case, cfg)
+    if kind == 'OrdinalDiscretizer':
+        from AutoCarver.discretizers.utils.qualitative_discretizers import OrdinalDiscretizer
+        o = OrdinalDiscretizer(ordinal_features=list(case['ordinal']), min_freq=cfg['min_freq'], values_orders={f: v for f, v in vo.items() if f in case['ordinal']}, copy=True, verbose=False)
+        o.fit(X, y); return o
+    if kind == 'CategoricalDiscretizer':
+        from AutoCarver.discretizers.utils.qualitative_discretizers import CategoricalDiscretizer
+        feats = [f for f in case['qualitative'] if all(isinstance(v, str) for v in X[f].dropna())]
+        o = CategoricalDiscretizer(qualitative_features=feats, min_freq=cfg['min_freq'], copy=True, verbose=False)
+        o.fit(X, y); return o
+    if kind == 'ContinuousDiscretizer':
+        from AutoCarver.discretizers.utils.quantitative_discretizers import ContinuousDiscretizer
+        o = ContinuousDiscretizer(quantitative_features=list(case['quantitative']), min_freq=cfg['min_freq'], copy=True, verbose=False, n_jobs=cfg.get('n_jobs', 1))
+        o.fit(X, y); return o
     if kind == 'MulticlassCarver':
         from AutoCarver.carvers.multiclass_carver import MulticlassCarver
         o = MulticlassCarver(sort_by=cfg.get('sort_by', 'tschuprowt'), min_freq=cfg['min_freq'], quantitative_features=list(case['quantitative']), qualitative_features=list(case['qualitative']),
@@ -49,6 +62,9 @@ def applicable(kind, case):
     if kind == 'BinaryCarver': return case['target'] == 'binary'
     if kind == 'ContinuousCarver': return case['target'] == 'continuous'
     if kind == 'MulticlassCarver': return case['target'] == 'multiclass'
+    if kind == 'OrdinalDiscretizer': return len(case['ordinal']) > 0
+    if kind == 'CategoricalDiscretizer': return any(all(isinstance(v, str) for v in case['X'][f].dropna()) for f in case['qualitative'])
+    if kind == 'ContinuousDiscretizer': return len(case['quantitative']) > 0
     return True
 
 
